@@ -744,7 +744,11 @@ fn supervise(gs: &[G], prop: &str, tier: Tier, seed: u64) -> i32 {
         let r = u / eligible.len();
         let g = &gs[gi];
         let (case, _) = unit_case(g, prop, seed, r);
-        let sig = format!("{prop}.process_death");
+        // a grammar with a known-finding shape reports under that shape's signature
+        let sig = match g.meta.shape_tags.first() {
+            Some(tag) => format!("{prop}.{tag}"),
+            None => format!("{prop}.process_death"),
+        };
         if prop == "C03" || prop == "C01" {
             verdicts.violation(&sig, &json!({"engine": "parsim", "seed": seed, "detail": what, "unit": u, "grammar": g.meta.name, "grammar_origin": g.meta.origin, "grammar_text": g.meta.text, "case": case}));
         }
